@@ -200,6 +200,11 @@ impl $t {
             Err(_) => frac.den() == 0 || (self@ * frac.num()) / frac.den() > $max,
         }
     { unimplemented!() }
+    /// `mul_floor((n, d))` = floor(self * n / d); panics on overflow or a zero denominator (specified for the runs that return)
+    #[verifier::external_body]
+    pub fn mul_floor<F: Frac>(self, frac: F) -> (r: $t)
+        ensures frac.den() != 0, r@ == (self@ * frac.num()) / frac.den(),
+    { unimplemented!() }
     /// `checked_div_floor((n, d))` = floor(self * d / n)  (division by the fraction n/d)
     #[verifier::external_body]
     pub fn checked_div_floor<F: Frac>(self, frac: F) -> (r: Result<$t, CheckedMultiplyFractionError>)
